@@ -838,7 +838,8 @@ fn vp_native_redirect_chains_body() {
             let (a, b) = *ports.lock().unwrap();
             match line.split(' ').nth(1).unwrap_or("") {
                 "/x/one" => resp(302, Some(&format!("http://localhost:{}/y/two?k=1", b)), ""),      // absolute, another host name and port
-                "/y/two?k=1" => resp(301, Some(&format!("//127.0.0.1:{}/z/three", a)), ""),           // network-path reference back
+                "/y/two?k=1" => resp(303, Some(&format!("http://localhost:{}/w/again", a)), ""),     // the same host name, the other port
+                "/w/again" => resp(301, Some(&format!("//127.0.0.1:{}/z/three", a)), ""),           // network-path reference back
                 "/z/three" => resp(307, Some("four"), ""),                                           // relative, same origin
                 "/z/four" => resp(308, Some(&format!("http://LOCALHOST:{}", b)), ""),                 // absolute without a path, host in capitals
                 "/" => resp(200, None, "end"),
@@ -848,8 +849,10 @@ fn vp_native_redirect_chains_body() {
         let a = serve_early(xlog.clone(), mk(ports.clone())); let b = serve_early(xlog.clone(), mk(ports.clone()));
         *ports.lock().unwrap() = (a, b);
         let r = s.get(format!("http://127.0.0.1:{}/x/one", a)).header("Host", "stale.example").send().unwrap(); cases += 1; crate::verif_native_watchdog::progress();
-        let want = [format!("http://127.0.0.1:{}/x/one", a), format!("http://localhost:{}/y/two?k=1", b), format!("http://127.0.0.1:{}/z/three", a), format!("http://127.0.0.1:{}/z/four", a), format!("http://localhost:{}/", b)];
-        assert_eq!(r.url().as_str(), want[4], "the response reports the URL it was fetched from");
+        let want = [format!("http://127.0.0.1:{}/x/one", a), format!("http://localhost:{}/y/two?k=1", b), format!("http://localhost:{}/w/again", a), format!("http://127.0.0.1:{}/z/three", a), format!("http://127.0.0.1:{}/z/four", a), format!("http://localhost:{}/", b)];
+        assert_eq!(r.url().as_str(), want[5], "the response reports the URL it was fetched from");
+        let ports_seen: Vec<u16> = xlog.lock().unwrap().iter().map(|x: &Seen| x.port).collect();
+        assert_eq!(ports_seen, [a, b, a, a, a, b], "the listener each hop arrived at");
         let seen = xlog.lock().unwrap().clone();
         let asked: Vec<String> = seen.iter().map(|x| format!("http://{}{}", x.host.clone().unwrap_or_default(), x.first_line.split(' ').nth(1).unwrap_or(""))).collect();
         assert_eq!(asked, want, "the URL each hop asked for (Host field + request target) against the resolved Locations");
@@ -1229,9 +1232,24 @@ fn vp_native_redirect_across_no_proxy_boundary_body() {
         assert!(o.is_empty() && p.len() == 2 && p[1].contains(&format!(" http://{}:{}/landing?x=1 ", target_host, origin)), "a {} redirect to http://{}:{}/ with a proxy configured and nothing exempting it: the proxy saw {:?}, the address itself saw {:?}", status, target_host, origin, p, o);
         assert_eq!(r.text().unwrap(), "via proxy");
     } }
+    // a host name that merely ends in the letters of another (vp-notlocalhost) is its own name: neither a request for it nor a
+    // redirect to it arrives at this machine's loopback listeners
+    let mut name_cases = 0u64;
+    for name in ["vp-notlocalhost", "vpnotlocalhost", "vp-notlocalhost.", "localhost.vp-not.test"] {
+        let alog = Arc::new(Mutex::new(Vec::new()));
+        let n2 = name.to_string();
+        let a = serve_early(alog.clone(), move |line, port| if line.contains("/start") { resp(307, Some(&format!("http://{}:{}/landing", n2, port)), "") } else { resp(200, None, "loopback") });
+        let s = { let mut s = crate::Session::new(); s.proxy_settings(crate::ProxySettings::builder().build()); s.connect_timeout(std::time::Duration::from_secs(2)); s };
+        let r1 = s.post(format!("http://127.0.0.1:{}/start", a)).header("X-Token", "secret").text("body").send();
+        let r2 = s.get(format!("http://{}:{}/direct", name, a)).send();
+        name_cases += 2; crate::verif_native_watchdog::progress();
+        std::thread::sleep(std::time::Duration::from_millis(100));
+        let seen: Vec<String> = alog.lock().unwrap().iter().map(|x: &Seen| x.first_line.clone()).collect();
+        assert!(seen.len() == 1 && seen[0].contains("/start"), "requests for the host {:?} arrived at the loopback listener on port {}: {:?} (results: {:?} / {:?})", name, a, seen, r1.map(|r| r.status().as_u16()).map_err(|e| e.to_string()), r2.map(|r| r.status().as_u16()).map_err(|e| e.to_string()));
+    }
     // the proxy chosen for a hop cannot be reached: whatever the exchange does then, a server that is not that proxy never receives
     // the request meant for the proxy (absolute-form target, the proxy's Host); a request that does reach the hop's own host names it
-    let mut cases = 2u64 + ip_cases;
+    let mut cases = 2u64 + ip_cases + name_cases;
     for status in [302u16, 307] {
         let dead = 1u16;   // a privileged port nothing listens on and no test is ever handed: connecting is refused at once
         let blog = Arc::new(Mutex::new(Vec::new())); let alog = Arc::new(Mutex::new(Vec::new()));
@@ -1675,6 +1693,22 @@ fn vp_native_connect_refusals_body() {
         let seen = log.lock().unwrap().clone();
         assert!(seen.len() == 1 && seen[0].raw_after_head.is_empty(), "client wrote to the proxy after the reply {:?}", String::from_utf8_lossy(junk));
     }
+    // a 2xx reply whose head has more fields than the limit, with or without its blank line: not a head that was read
+    for (nfields, limit) in [(101usize, None), (150, None), (1000, None), (6, Some(5usize)), (2, Some(1))] { for blank in [true, false] {
+        let log = Arc::new(Mutex::new(Vec::new()));
+        let mut j = b"HTTP/1.1 200 Connection established\r\n".to_vec();
+        for i in 0..nfields { j.extend_from_slice(format!("X-Pad-{}: v\r\n", i).as_bytes()); }
+        if blank { j.extend_from_slice(b"\r\n"); }
+        let proxy = serve(log.clone(), move |_, _| j.clone());
+        let mut s = crate::Session::new();
+        s.proxy_settings(crate::ProxySettings::builder().https_proxy(Url::parse(&format!("http://127.0.0.1:{}", proxy)).unwrap()).build());
+        if let Some(l) = limit { s.max_headers(l); }
+        let e = s.post("https://origin.test/secret").text("topsecret").send(); cases += 1; crate::verif_native_watchdog::progress();
+        assert!(e.is_err(), "a CONNECT reply with {} header fields (limit {:?}) must be an error", nfields, limit);
+        settle(&log, 1);
+        let seen = log.lock().unwrap().clone();
+        assert!(seen.len() == 1 && seen[0].raw_after_head.is_empty(), "client wrote {} bytes to the proxy after a 2xx reply with {} header fields (limit {:?}, blank line: {})", seen.get(0).map_or(0, |x| x.raw_after_head.len()), nfields, limit, blank);
+    } }
     // every status a proxy can answer CONNECT with: only 2xx is an agreement; any other status is reported with that very status
     // and nothing more is written to the proxy
     for status in 100u16..600 {
